@@ -99,7 +99,10 @@ pub fn c02(seed: u64, runs: usize, nmax: usize, tw: &mut TraceWriter) -> Cov {
         let lat_hi = cfg.rtt / 4 - 1;
         let scfg = SimCfg { n, cfg: cfg.clone(), codec: CodecKind::Hand(Mode::Fixed), handler: HandlerCfg::default(), pol: Policy::None,
                             seed: r.random(), lat: (0, lat_hi), late: 0 };
-        let mut sim = Sim::new(scfg, run as u64, "c02", json!({"nodisc": nodisc}), tw);
+        // does one membership update fit on a Ping / Ack (fixed codec: 10-byte header, count 2, member 6)? At the tightest
+        // packet sizes a Feed still lists the whole cluster but nothing can be piggybacked on the probe traffic
+        let piggy = cfg.maxpkt >= 10 + 2 + 6;
+        let mut sim = Sim::new(scfg, run as u64, "c02", json!({"nodisc": nodisc, "piggy": piggy}), tw);
         if feed_regime {
             sim.spawn(0, 0);
             let mut t = 0;
